@@ -161,6 +161,20 @@ def campaign(c):
                 if val_bytes(r) != want:
                     c.violation('bind:tail-handover:' + f['path'], '%s(%s) = %s: the collected arguments are not all handed over in order' % (f['path'], [x.decode() for x in t], r[:80]), dict(func=f['path'], req=req, want=want.hex()))
             c.case(('tail', f['path'], tuple(t)), None)
+    # the tail as the function body sees it: typed elements (one-, two-, four- and eight-byte integers, addresses, packets, strings)
+    # arrive with their own widths - text::len of a tail is the length of text::concat of the same tail, element by element
+    TY = [('u8:7', 1), ('u16:300', 2), ('u32:70000', 4), ('u64:5', 8), ('ip4:16909060', 4), ('str:616263', 3), ('str:-', 0), ('pkt:000102030405060708090a0b0c0d', 14), ('bool:true', None)]
+    for n in (1, 2, 3):
+        for combo in itertools.product(TY, repeat=n):
+            if any(w is None for _, w in combo) and n > 1: continue
+            args = ['-=' + v for v, _ in combo]
+            res, req = call_both(c, [['text::len'] + args, ['text::concat'] + args], 'tail-widths')
+            if res[0].startswith('ok') and res[1].startswith('ok str:'):
+                want = sum(w for _, w in combo)
+                ln = res[0].split(':')[-1]
+                if str(want) != ln or len(val_bytes(res[1])) != want:
+                    c.violation('bind:tail-handover:text::len', 'text::len(%s) = %s, text::concat of the same tail has %d bytes, the elements are %d bytes' % (args, ln, len(val_bytes(res[1])), want), dict(func='text::len', req=req))
+            c.case(('tail-widths', tuple(v for v, _ in combo)), None)
     # designation end to end: every parameter of every function gets its own recognisable value (by name in declared order, by
     # name in reverse order, and positionally where possible) and the function is CALLED; the model and the real code must produce
     # the same result, and for the fixed-layout header helpers the value must sit in the field the documentation gives that name
